@@ -13,6 +13,7 @@ import os
 REPO = os.environ.get("VERIF_REPO", "/repo")
 
 _cache: dict[str, tuple[str, ast.Module]] = {}
+_find_cache: dict[str, tuple] = {}
 
 
 def load(relpath: str):
@@ -58,6 +59,9 @@ def _find_in(body, name, want_setter=False):
 def find(key: str):
     """key = 'relpath:Qual.name' ('<locals>' parts are skipped).  Returns
     (node, source_segment, sha256).  A trailing '@setter' selects a property setter."""
+    if key in _find_cache:  # same file text (see load) => same answer; pure memoisation
+        return _find_cache[key]
+    key0 = key
     relpath, qual = key.split(":")
     want_setter = qual.endswith("@setter")
     if want_setter:
@@ -77,7 +81,8 @@ def find(key: str):
             raise KeyError(f"carrier not found: {key} (missing '{part}')")
         node = nxt
     seg = ast.get_source_segment(src, node) or ""
-    return node, seg, hashlib.sha256(seg.encode()).hexdigest()
+    _find_cache[key0] = (node, seg, hashlib.sha256(seg.encode()).hexdigest())
+    return _find_cache[key0]
 
 
 def func_key(pyfunc) -> str | None:
@@ -99,3 +104,4 @@ def func_key(pyfunc) -> str | None:
 
 def clear_cache():
     _cache.clear()
+    _find_cache.clear()
